@@ -101,7 +101,11 @@ def run(ctx):
     res = ctx.component('K-UPD', cases, keys={'dims', 'u1', 'v1', 'w1', 'sweep_u', 'sweep_v', 'sweep_w'})
     traj, tmetas = [], {}
     for k in range(ctx.budget(80, 3000)):
-        line, m = gen.gen_e2e(rng.fork('t%d' % k), 600000 + k, maxit_max=25, r_max=2, trace=2)
+        # every third run: several realizations into output containers that still hold an earlier result (what a caller re-using its matrices does)
+        if k % 3 == 2:
+            line, m = gen.gen_e2e(rng.fork('t%d' % k), 600000 + k, maxit_max=25, r=rng.rint(2, 3), trace=2, prior='previous')
+        else:
+            line, m = gen.gen_e2e(rng.fork('t%d' % k), 600000 + k, maxit_max=25, r_max=2, trace=2)
         traj.append(line)
         tmetas[600000 + k] = m
     res2 = ctx.component('K-E2E(trajectories, implementation only)', traj, model=False)
